@@ -128,7 +128,7 @@ class Pool:
             elif kind == 'slice':
                 p['room'] = [o.remaining_bits, o.remaining_refs]
             if kind == 'cell':
-                p['d'] = o.get_depth(3)
+                p['d'] = max(o.get_depth(l) for l in range(4))      # the limit holds at every level
                 p['h'] = list(o.hash) + level_view(o)
                 if id(o) in self.opaque:
                     p['s'], p['fh'], p['fs'] = [], p['h'], []
